@@ -29,6 +29,7 @@ def main():
     if not ck.build():
         ck.finish()
     ck.check_props()
+    ck.check_translation("optimiser")
     nmax = 6
     seeds = 6 if ck.quick else 30
     bases = []
